@@ -8,6 +8,7 @@ import (
 	"os"
 	"strings"
 	"sync"
+	"syscall"
 	"testing"
 
 	"github.com/akrennmair/updog"
@@ -42,14 +43,17 @@ const (
 var preName = []string{"0-bytes", "random-bytes", "valid-index", "bbolt-non-index", "read-only valid-index", "symlink-to-file", "dangling-symlink", "directory"}
 
 type ClobberCase struct {
-	Pre     int
+	// FDExhaust: the process has no free file descriptor while Flush runs
+	// (resource fault: the open fails for another reason than "exists").
+	FDExhaust bool
+	Pre       int
 	Random  []byte
 	PreData gen.DataSpec // for PIndex
 	Data    gen.DataSpec // what the writer holds
 }
 
 func (c *ClobberCase) Summary() string {
-	return fmt.Sprintf("existing=%s(%d random bytes) writer holds %s", preName[c.Pre], len(c.Random), c.Data.Summary())
+	return fmt.Sprintf("existing=%s(%d random bytes) fd-exhausted-during-flush=%v writer holds %s", preName[c.Pre], len(c.Random), c.FDExhaust, c.Data.Summary())
 }
 
 // digest describes what is at path without following a final symlink: link
@@ -130,7 +134,12 @@ func clobberOracle(c *ClobberCase) error {
 			return fmt.Errorf("AddRow: %v", err)
 		}
 	}
-	ferr := fix.Safe(w.Flush)
+	var ferr error
+	if c.FDExhaust {
+		ferr = withoutFreeFDs(func() error { return fix.Safe(w.Flush) })
+	} else {
+		ferr = fix.Safe(w.Flush)
+	}
 	if fix.IsPanic(ferr) {
 		return ferr
 	}
@@ -152,6 +161,38 @@ func clobberOracle(c *ClobberCase) error {
 		return fmt.Errorf("second Flush changed the existing file")
 	}
 	return nil
+}
+
+// withoutFreeFDs runs f while the process cannot open any further file: the
+// soft RLIMIT_NOFILE is lowered and the remaining descriptors are used up.
+func withoutFreeFDs(f func() error) error {
+	var old syscall.Rlimit
+	if err := syscall.Getrlimit(syscall.RLIMIT_NOFILE, &old); err != nil {
+		return f()
+	}
+	low := old
+	low.Cur = 128
+	if low.Cur > old.Max {
+		low.Cur = old.Max
+	}
+	syscall.Setrlimit(syscall.RLIMIT_NOFILE, &low)
+	var hold []*os.File
+	for {
+		fh, err := os.Open("/dev/null")
+		if err != nil {
+			break
+		}
+		hold = append(hold, fh)
+		if len(hold) > 100000 {
+			break
+		}
+	}
+	err := f()
+	for _, fh := range hold {
+		fh.Close()
+	}
+	syscall.Setrlimit(syscall.RLIMIT_NOFILE, &old)
+	return err
 }
 
 // ---------------------------------------------------------------- concurrent creation
@@ -390,7 +431,7 @@ func runRace(t interface{ Fatalf(string, ...any) }, c *RaceCase) {
 }
 
 func drawClobber(t *rapid.T) *ClobberCase {
-	c := &ClobberCase{Pre: rapid.IntRange(0, nPre-1).Draw(t, "pre")}
+	c := &ClobberCase{Pre: rapid.IntRange(0, nPre-1).Draw(t, "pre"), FDExhaust: rapid.IntRange(0, 5).Draw(t, "fdexhaust") == 0}
 	c.Random = rapid.SliceOfN(rapid.Byte(), 1, 5000).Draw(t, "random")
 	if rapid.IntRange(0, 3).Draw(t, "magic") == 0 {
 		// random bytes that start like a bbolt file of some page size
